@@ -205,6 +205,11 @@ def run1 : List String → String
     match runs (fun a b => tableAt t a == tableAt t b) (parseList l) with
     | none => "panic"
     | some rs => showPairs rs
+  | ["runsle", l, t] =>
+    let t := parseList t
+    match runs (fun a b => decide (tableAt t a ≤ tableAt t b)) (parseList l) with
+    | none => "panic"
+    | some rs => showPairs rs
   | ["shrink", l, cap, n] =>
     match shrink 0 (parseList l) (intOr cap) (intOr n) with
     | none => "panic"
